@@ -340,6 +340,14 @@ func genesisErrClass(err error) *string {
 
 func opGenesis(g *G) (interface{}, []uint64, int, interface{}) {
 	gn, fam := genesisSubject(g)
+	if g.chance(0.08) && len(gn.ControlGenes) == 0 {
+		// node list NOT ascending by id (a hand-built genome or a file that lists the output first): expression and the
+		// graph view must not depend on the order; the driver treats the family as in-domain only for what it can decide
+		// (`GenomeOk` does not ask for sorted nodes)
+		gn = cloneGenome(gn)
+		g.gr.Shuffle(len(gn.Nodes), func(i, j int) { gn.Nodes[i], gn.Nodes[j] = gn.Nodes[j], gn.Nodes[i] })
+		fam += "/nodes-unsorted"
+	}
 	in := &genesisIn{Family: fam}
 	out := &genesisOut{}
 	var net *network.Network
